@@ -358,12 +358,17 @@ func (db *DB) writeObject(o Object) (err error) {
 		return
 	}
 
-	path := db.oPath(s, o)
-	if err = os.MkdirAll(filepath.Dir(path), DefaultPermissions); err != nil {
+	if data, err = json.Marshal(o); err != nil {
 		return
 	}
 
-	if data, err = json.Marshal(o); err != nil {
+	return db.writeObjectData(s, o, data)
+}
+
+// writeObjectData writes the serialized form of an object
+func (db *DB) writeObjectData(s *Schema, o Object, data []byte) (err error) {
+	path := db.oPath(s, o)
+	if err = os.MkdirAll(filepath.Dir(path), DefaultPermissions); err != nil {
 		return
 	}
 
@@ -423,9 +428,16 @@ func (db *DB) initialize(o Object) (err error) {
 }
 
 func (db *DB) insertOrUpdate(s *Schema, o Object, commit bool) (err error) {
+	var data []byte
 
 	// initialize object first
 	if err = db.initialize(o); err != nil {
+		return
+	}
+
+	// an object which cannot be serialized can never be written, so
+	// it must be refused before being indexed, cached or queued
+	if data, err = json.Marshal(o); err != nil {
 		return
 	}
 
@@ -444,7 +456,7 @@ func (db *DB) insertOrUpdate(s *Schema, o Object, commit bool) (err error) {
 		db.asyncw.put(o)
 	} else {
 		// writing the object to disk
-		if err = db.writeObject(o); err != nil {
+		if err = db.writeObjectData(s, o, data); err != nil {
 			return
 		}
 
@@ -1000,16 +1012,21 @@ func (db *DB) InsertOrUpdateMany(objects ...Object) (n int, err error) {
 			return
 		}
 
+		// an object which cannot be serialized makes the insertion fail
+		if _, err = json.Marshal(o); err != nil {
+			return
+		}
+
 		// check that temporary index made of objects to insert
 		// validates object's constraints
 		if err = tmpIndex.insertOrUpdate(o); err != nil {
-			err = fmt.Errorf("%w > %s", err, jsonOrPanic(o))
+			err = fmt.Errorf("%w > %s", err, jsonOrError(o))
 			return
 		}
 
 		// check that current objects' index validate object's constraints
 		if err = schema.ObjectIndex.satisfyAll(o); err != nil {
-			err = fmt.Errorf("%w > %s", err, jsonOrPanic(o))
+			err = fmt.Errorf("%w > %s", err, jsonOrError(o))
 			return
 		}
 	}
@@ -1017,7 +1034,7 @@ func (db *DB) InsertOrUpdateMany(objects ...Object) (n int, err error) {
 	// inserting objects
 	for _, o := range objects {
 		if e := db.insertOrUpdate(schema, o, false); e != nil {
-			err = fmt.Errorf("%w > %s", e, jsonOrPanic(o))
+			err = fmt.Errorf("%w > %s", e, jsonOrError(o))
 			break
 		}
 		n++
